@@ -116,7 +116,9 @@ class Scanner:
                 break
 
     def error(self, message: str) -> Never:
-        token = Token(TokenKind.ERROR, self.grammar[self.pos], self.start, self.grammar)
+        # `self.pos` is len(self.grammar) when the grammar ends unexpectedly.
+        value = self.grammar[self.pos : self.pos + 1]
+        token = Token(TokenKind.ERROR, value, self.start, self.grammar)
         raise PestGrammarSyntaxError(message, token=token)
 
     def scan_grammar(self) -> StateFn | None:
